@@ -1,6 +1,7 @@
 package rules
 
 import (
+	"os"
 	"go/constant"
 	"go/token"
 	"go/types"
@@ -160,7 +161,14 @@ func ruleC17MatchGates(c *Check, m *c17Info) {
 		if a.Op != "eq" {
 			return false
 		}
-		return pairIs(a, isPrefix, isEmpty) || pairIs(a, func(v ssa.Value) bool { return isLenOf(v, m.fPrefix) }, isZeroInt)
+		return pairIs(a, isPrefix, isEmpty) || pairIs(a, func(v ssa.Value) bool {
+			for _, o := range engine.Origins(v) {
+				if o == nil || !isLenOf(o, m.fPrefix) {
+					return false
+				}
+			}
+			return len(engine.Origins(v)) > 0
+		}, isZeroInt)
 	}
 	recTrue := func(a engine.Atom) bool { return a.Op == "true" && isFieldVal(a.V, m.fRecursive) }
 	recFalse := func(a engine.Atom) bool { return a.Op == "false" && isFieldVal(a.V, m.fRecursive) }
@@ -171,6 +179,70 @@ func ruleC17MatchGates(c *Check, m *c17Info) {
 			return false
 		}
 		return pairIs(a, isTarget, isStrConst) || pairIs(a, func(v ssa.Value) bool { return isLenOf(v, m.fTarget) }, isZeroInt)
+	}
+	// the length-and-byte form of the boundary test: len(pkg) > len(prefix) && pkg[len(prefix)] == '/' &&
+	// pkg[:len(prefix)] == prefix (or a bare HasPrefix(pkg, prefix) for the last conjunct)
+	fromPrefixLen := func(v ssa.Value) bool {
+		os := engine.Origins(v)
+		if len(os) == 0 {
+			return false
+		}
+		for _, o := range os {
+			if o == nil || !isLenOf(o, m.fPrefix) {
+				return false
+			}
+		}
+		return true
+	}
+	byteAtBoundary := func(v ssa.Value) bool {
+		for _, o := range engine.Origins(v) {
+			var x, idx ssa.Value
+			switch e := o.(type) {
+			case *ssa.Index: // strings are indexed with Index (Lookup in older go/ssa)
+				x, idx = e.X, e.Index
+			case *ssa.Lookup:
+				x, idx = e.X, e.Index
+			default:
+				return false
+			}
+			if !isPkg(x) || !fromPrefixLen(idx) {
+				return false
+			}
+		}
+		return len(engine.Origins(v)) > 0
+	}
+	headOfPkg := func(v ssa.Value) bool {
+		for _, o := range engine.Origins(v) {
+			sl, ok := o.(*ssa.Slice)
+			if !ok || !isPkg(sl.X) || sl.Low != nil || sl.High == nil || !fromPrefixLen(sl.High) {
+				return false
+			}
+		}
+		return len(engine.Origins(v)) > 0
+	}
+	barePrefixCall := func(v ssa.Value) bool {
+		call, ok := v.(*ssa.Call)
+		return ok && engine.CalleeName(call) == "strings.HasPrefix" && len(call.Call.Args) == 2 && isPkg(call.Call.Args[0]) && isPrefix(call.Call.Args[1])
+	}
+	sepByteTrue := func(a engine.Atom) bool { return a.Op == "eq" && pairIs(a, byteAtBoundary, isSeparator) }
+	sepByteFalse := func(a engine.Atom) bool { return a.Op == "ne" && pairIs(a, byteAtBoundary, isSeparator) }
+	headEqTrue := func(a engine.Atom) bool {
+		return (a.Op == "eq" && pairIs(a, headOfPkg, isPrefix)) || (a.Op == "true" && barePrefixCall(a.V))
+	}
+	headEqFalse := func(a engine.Atom) bool {
+		return (a.Op == "ne" && pairIs(a, headOfPkg, isPrefix)) || (a.Op == "false" && barePrefixCall(a.V))
+	}
+	isLenPkg := func(v ssa.Value) bool {
+		for _, o := range engine.Origins(v) {
+			if o == nil || !isLenOf(o, m.fPkg) {
+				return false
+			}
+		}
+		return len(engine.Origins(v)) > 0
+	}
+	lenCmp := func(a engine.Atom) bool { return pairIs(a, isLenPkg, fromPrefixLen) }
+	lenDiffer := func(a engine.Atom) bool {
+		return (a.Op == "ne" || a.Op == "lt" || a.Op == "gt") && lenCmp(a)
 	}
 	anyOf := func(ps ...func(engine.Atom) bool) func(b *ssa.BasicBlock, succ int) bool {
 		return engine.CutEdgesWhere(func(a engine.Atom) bool {
@@ -192,7 +264,14 @@ func ruleC17MatchGates(c *Check, m *c17Info) {
 	c.Require(!may, "R17a", "nonrecursive-package-equality/"+name, "every path of the matcher that avoids the recursive branch and answers true crosses package == prefix", "the matcher can answer true for a non-recursive pattern without having compared the label's package with the pattern's package for equality: `//p:all` matches targets outside package p", pos)
 
 	c.Rule("R17b", "a recursive pattern (`//p/...`) answers 'matches' only past package == prefix, an empty prefix (`//...`), or strings.HasPrefix(package, prefix + separator): the prefix is matched at a path-component boundary, never against a sibling such as p2", 1)
-	may = engine.MayReturnBool(fn, 0, true, engine.PathQuery{CutEdge: anyOf(pkgEq, boundaryTrue, prefixEmpty, recFalse)})
+	// both halves of a boundary test written out by hand have to be on the path: the separator byte and the
+	// equality of the head (a prefix test against prefix+separator is both at once)
+	mayB := engine.MayReturnBool(fn, 0, true, engine.PathQuery{CutEdge: anyOf(pkgEq, boundaryTrue, prefixEmpty, recFalse, sepByteTrue)})
+	mayP := engine.MayReturnBool(fn, 0, true, engine.PathQuery{CutEdge: anyOf(pkgEq, boundaryTrue, prefixEmpty, recFalse, headEqTrue)})
+	if os.Getenv("GROGDBG") != "" {
+		println("R17b separator-half", mayB, "head-half", mayP)
+	}
+	may = mayB || mayP
 	c.Require(!may, "R17b", "recursive-component-boundary/"+name, "every path of the recursive branch that answers true crosses package == prefix, prefix == \"\" or HasPrefix(package, prefix+\"/\")", "the matcher can answer true for a recursive pattern without a package comparison that respects the component boundary (equality, the empty prefix, or a prefix test against prefix + separator): `//p/...` matches targets of a sibling package such as `p2`, or of unrelated packages", pos)
 
 	c.Rule("R17c", "a pattern answers 'matches' only past an equality of the label's name with the pattern's name part, or past a comparison of the pattern's own name part with a constant (its wildcard spellings): a name suffix restricts by exact target name", 1)
@@ -200,11 +279,11 @@ func ruleC17MatchGates(c *Check, m *c17Info) {
 	c.Require(!may, "R17c", "name-equality-or-wildcard/"+name, "every path that answers true crosses name == targetPattern or a wildcard test of the pattern's name part", "the matcher can answer true without having compared the target name for equality (and without the pattern's name part being one of its wildcard spellings): `//p:x` matches targets that are not named x", pos)
 
 	c.Rule("R17d", "the matcher answers 'does not match' only past a failed comparison of the package or of the name: a label whose package and name equal the pattern's is never rejected", 1)
-	may = engine.MayReturnBool(fn, 0, false, engine.PathQuery{CutEdge: anyOf(pkgNe, nameNe, boundaryFullFalse)})
+	may = engine.MayReturnBool(fn, 0, false, engine.PathQuery{CutEdge: anyOf(pkgNe, nameNe, boundaryFullFalse, lenDiffer, sepByteFalse, headEqFalse)})
 	c.Require(!may, "R17d", "reject-only-past-inequality/"+name, "every path that answers false crosses package != prefix or name != targetPattern", "the matcher can answer false without a failed equality test of the package or the name: a label the pattern denotes (same package, same name) can be rejected — `//p/...` no longer matches package p itself, or `//p:x` not `//p:x`", pos)
 
 	c.Rule("R17e", "a recursive pattern answers 'does not match' only past a failed boundary prefix test or a failed name comparison: packages below the prefix are never rejected for their package", 1)
-	may = engine.MayReturnBool(fn, 0, false, engine.PathQuery{CutEdge: anyOf(boundaryFalse, nameNe, recFalse)})
+	may = engine.MayReturnBool(fn, 0, false, engine.PathQuery{CutEdge: anyOf(boundaryFalse, nameNe, recFalse, sepByteFalse, headEqFalse, lenCmp)})
 	c.Require(!may, "R17e", "recursive-reject-only-past-boundary-test/"+name, "every path of the recursive branch that answers false crosses a failed HasPrefix(package, prefix+\"/\") or name != targetPattern", "the recursive branch of the matcher can answer false without having tested the label's package against prefix + separator: targets in packages below the prefix are rejected, `//p/...` matches less than the packages below p", pos)
 }
 
@@ -357,9 +436,17 @@ func emittedConstants(c *Check, root *ssa.Function) map[string]bool {
 						if len(x.Call.Args) == 2 {
 							add(x.Call.Args[1])
 						}
-					case "(*strings.Builder).WriteString":
+					case "(*strings.Builder).WriteString", "(*bytes.Buffer).WriteString":
 						if len(x.Call.Args) == 2 {
 							add(x.Call.Args[1])
+						}
+					case "(*strings.Builder).WriteByte", "(*strings.Builder).WriteRune", "(*bytes.Buffer).WriteByte", "(*bytes.Buffer).WriteRune":
+						if len(x.Call.Args) == 2 {
+							if k, ok := x.Call.Args[1].(*ssa.Const); ok && k.Value != nil && k.Value.Kind() == constant.Int {
+								if r, exact := constant.Int64Val(k.Value); exact && r > 0 && r < 0x10ffff {
+									out[string(rune(r))] = true
+								}
+							}
 						}
 					}
 				}
